@@ -52,9 +52,28 @@ def gen_dep_fn_scenario(rng: random.Random, steer=None):
                 tk = gen_applicable_type(rng, ew, kw_focus, allow_combo=False)
             params.append({"name": 90, "kind": "ko", "req": False, "ty": tk})
         body = ["ret"]
-        if rng.random() < 0.3:
+        if rng.random() < (0.5 if steer == "literals" else 0.3):
             body = ["callNext", [["p", j] for j in range(npos)]]
         defs.append({"id": i, "code": 100 + i, "isMethod": False, "prio": rng.choice([0, 0, 0, 0, 1, -1]), "params": params, "body": body})
+    # now and then a sibling that differs from another method ONLY in the bound of one value-dependent parameter
+    # (the same values / the same condition with the same parameters): the two are different types
+    rebound = None
+    if rng.random() < 0.3:
+        cands = [(d, p) for d in defs for p in d["params"] if p["ty"][0] in ("lit", "fdep") and p["kind"] != "ko" and p["name"] < npos]
+        if cands:
+            d0, p0 = rng.choice(cands)
+            supers = [c for c in range(w.n) if w.tables_cache["sub"][focus[p0["name"]]][c]]
+            alts = [["cls", c] for c in supers if ["cls", c] != p0["ty"][-1]]
+            if alts:
+                nd = json.loads(json.dumps(d0))
+                nd["id"], nd["code"] = len(defs), 100 + len(defs)
+                for q in nd["params"]:
+                    if q["name"] == p0["name"]:
+                        q["ty"] = p0["ty"][:-1] + [rng.choice(alts)]
+                defs.append(nd)
+                nmeth += 1
+                # values of both bounds are then called with
+                rebound = (p0["name"], [b[1] for b in (p0["ty"][-1], nd["params"][[q["name"] for q in nd["params"]].index(p0["name"])]["ty"][-1]) if b[0] == "cls"])
     # arguments: every pool value once (identity!), plus instances of the user classes
     args = []
     for pi, v in enumerate(POOL):
@@ -72,6 +91,8 @@ def gen_dep_fn_scenario(rng: random.Random, steer=None):
             cands = by_cls.get(focus[j], []) if rng.random() < 0.85 else list(range(len(args)))
             if focus[j] == C_INT and rng.random() < 0.3:
                 cands = cands + by_cls.get(C_BOOL, [])
+            if rebound is not None and rebound[0] == j and rng.random() < 0.5:
+                cands = [v for c in rebound[1] for v in by_cls.get(c, [])] or cands
             pos.append(rng.choice(cands or list(range(len(args)))))
         extra = list(pos)
         kw = []
